@@ -32,6 +32,8 @@ func TestC20(t *testing.T) {
 			rejoinThenLaterJoin(rec, c)
 		case "down":
 			removalWhileMemberDown(rec, c)
+		case "behind":
+			restartAndRejoinThroughMemberBehindOnAJoin(rec, c)
 		default:
 			scenario(rec, c)
 		}
@@ -52,6 +54,9 @@ func TestC20(t *testing.T) {
 		}
 		if rec.Mine(c + 6) {
 			removalWhileMemberDown(rec, c)
+		}
+		if rec.Mine(c + 1) {
+			restartAndRejoinThroughMemberBehindOnAJoin(rec, c)
 		}
 	}
 }
@@ -376,6 +381,106 @@ func removalWhileMemberDown(rec *mon.Recorder, c int) {
 	}
 	rec.Seen("phases", phase)
 	rec.Case(mon.Digest(r.desc, lag.Id, gone.Id, compacted), true)
+}
+
+// A member restarts and joins again - as every restart with -join does - through a member that is behind on a
+// join the restarting member has already applied: the answer it gets lacks the newest node, and it must still list it
+// once everybody has caught up.
+func restartAndRejoinThroughMemberBehindOnAJoin(rec *mon.Recorder, c int) {
+	r := &run{rec: rec, c: c, desc: fmt.Sprintf("rejoin-through-member-behind-on-a-join case=%d nodes=4", c)}
+	rec.Current(r.desc)
+	r.cl = sim.New(sim.Options{Nodes: 4, Dir: os.Getenv("VERIF_SCRATCH") + fmt.Sprintf("/c20b-%d", c), TickEvery: 5 * time.Millisecond, Seed: rec.Seed() + int64(c), NoJoinBarrier: true})
+	defer r.cl.Close()
+	cl := r.cl
+	var gateMu sync.Mutex
+	armed, engaged := false, false
+	release := make(chan struct{})
+	released := false
+	open := func() {
+		gateMu.Lock()
+		if !released {
+			released = true
+			close(release)
+		}
+		gateMu.Unlock()
+	}
+	defer open()
+	cl.OnEvent = func(n *sim.Node, group uuid.UUID, point string, args ...interface{}) {
+		if n.Idx != 1 || !uuid.Equal(group, uuid.Nil) || point != "ready" || len(args) == 0 {
+			return
+		}
+		rd, ok := args[0].(*etcdRaft.Ready)
+		if !ok {
+			return
+		}
+		gateMu.Lock()
+		hold := false
+		if armed && !engaged {
+			for _, e := range rd.CommittedEntries {
+				if e.Type == raftpb.EntryConfChange {
+					var cc raftpb.ConfChange
+					if cc.Unmarshal(e.Data) == nil && cc.Type == raftpb.ConfChangeAddNode && cc.NodeID == 4 {
+						hold, engaged = true, true
+					}
+				}
+			}
+		}
+		gateMu.Unlock()
+		if hold {
+			select { // node 2 learns of node 4's committed join but does not get to apply it yet
+			case <-release:
+			case <-time.After(40 * time.Second):
+			}
+		}
+	}
+	if !r.startMembers(3) {
+		return
+	}
+	gateMu.Lock()
+	armed = true
+	gateMu.Unlock()
+	if err := cl.StartNode(3); err != nil {
+		rec.Inconclusive(fmt.Sprintf("%s: join of node 4: %v", r.desc, err))
+		return
+	}
+	r.note("join of node 4 acknowledged while node 2 holds the committed join unapplied")
+	if cl.WaitFor(20*time.Second, func() bool { _, ok := book(cl.Nodes[2])[4]; return ok }) != nil {
+		rec.Inconclusive(r.desc + ": node 3 did not apply node 4's join")
+		return
+	}
+	gateMu.Lock()
+	held := engaged
+	gateMu.Unlock()
+	if !held {
+		rec.Count("rejoin_behind_on_a_join_gate_not_engaged", 1)
+	}
+	// node 3 restarts (c even) or repeats its handshake live (c odd), asking node 2
+	n3 := cl.Nodes[2]
+	if c%2 == 0 {
+		n3.JoinVia = cl.Nodes[1].Addr
+		if err := cl.Restart(n3.Idx); err != nil {
+			rec.Inconclusive(fmt.Sprintf("%s: restart of node 3 through node 2: %v", r.desc, err))
+			return
+		}
+		r.note("node 3 restarted and joined again through node 2")
+	} else {
+		var jerr error
+		if !cl.Guard(30*time.Second, func() { jerr = n3.In.NodesManager.Join(context.Background(), []string{cl.Nodes[1].Addr}) }) || jerr != nil {
+			rec.Inconclusive(fmt.Sprintf("%s: repeated join of node 3 through node 2: %v", r.desc, jerr))
+			return
+		}
+		r.note("node 3 repeated its join handshake through node 2")
+	}
+	open()
+	want := map[uint64]string{}
+	for _, n := range cl.Nodes {
+		want[n.Id] = n.Addr
+	}
+	rec.Count("rejoin_through_member_behind_on_a_join_histories", 1)
+	if !r.converge(cl.Nodes, want, "after-a-member-joined-again-through-a-member-behind-on-a-later-join", bookSym) {
+		return
+	}
+	rec.Case(mon.Digest(r.desc), held)
 }
 
 // A removed node re-joins through a member that has not yet applied the
